@@ -51,6 +51,10 @@ def run(chk, replay=None):
     w = core.workdir("c04")
     if not replay:
         models(chk, thorough)
+        # ---- BEGIN inductive block (growth item "ind": unbounded results, thorough tier only) ----
+        if thorough:
+            _inductive(chk)
+        # ---- END inductive block ----
     extra = ["--only", replay["event"]["case"]] if replay else []
     trace = run_sharded("c04", chk, w, extra)
     if replay:
@@ -123,3 +127,35 @@ def run(chk, replay=None):
                         "schedules are sampled (perturbation + gates), not enumerated; the exhaustive interleaving claim is the model's, at 2 workers",
                         "relaxed atomics in the model may return any value written so far (weaker than the hardware)",
                         "classgroup sieve not driven (covered structurally by the same protocol)"]
+
+
+# ---- BEGIN inductive block (growth item "ind") ----
+def _inductive(chk):
+    """WriterExclusive / NoLostInsert as an inductive invariant for N = 3 and 4 workers and UNBOUNDED counters
+    (Apalache on SieveLockInd.tla: the lock and the two-step RelationSet::add restated, the rest of the protocol
+    abstracted to free moves outside the locked regions); TLC link: every step of SieveProto.tla is a step of the
+    abstraction; counterexamples to induction for the broken variants (no write lock; readers admitted beside a
+    writer).  Anything unexpected here is a tool error (exit 2), never a violation."""
+    if not core.ind_enabled():
+        chk.notes.append("inductive block skipped (VERIF_NO_IND=1)")
+        return
+    ind = {"claim": "SieveLockInd!IndInv (TypeOK, LockInv, SumInv, TmpInv) is inductive and implies WriterExclusive and "
+                    "NoLostInsert for 3 and 4 workers with unbounded insertion counters and any control flow outside the locked "
+                    "regions (Apalache); every step of SieveProto.tla (2 and 3 workers) is a step of SieveLockInd (TLC)",
+           "runs": []}
+    for cfg in ("MC_SieveLockInd_w2.cfg", "MC_SieveLockInd_w3.cfg"):
+        chk.add_mc(core.model_check("sieveproto/MC_SieveLockInd.tla", cfg, workers=4, timeout=1700))
+    A = "sieveproto/SieveLockInd.tla"
+    for kw, want in ((dict(cinit="CInit3", init="Init", length=0), "ok"),
+                     (dict(cinit="CInit3", init="IndInit", length=1), "ok"),
+                     (dict(cinit="CInit4", init="Init", length=0), "ok"),
+                     (dict(cinit="CInit4", init="IndInit", length=1), "ok"),
+                     (dict(cinit="CInit3", init="IndInit", next="NextNoLock", length=1), "counterexample"),
+                     (dict(cinit="CInit3", init="IndInit", next="NextBadR", length=1), "counterexample")):
+        ind["runs"].append(core.ind_expect(core.apalache(A, "Inv", timeout=1200, **kw), want, "SieveLockInd %s" % kw))
+    chk.cov["inductive"] = ind
+    chk.notes.append("inductive: WriterExclusive / NoLostInsert inductive for 3 and 4 workers, unbounded counters (apalache, %.0fs)" %
+                     sum(r["wall_s"] for r in ind["runs"]))
+    chk.assumptions.append("apalache-mc/Z3 for the unbounded lock invariant; SieveLockInd.tla abstracts SieveProto.tla "
+                           "(linked by TLC: MC_SieveLockInd.tla)")
+# ---- END inductive block ----
